@@ -215,6 +215,12 @@ impl<'m> MCTPSMBusContext<'m> {
     ///
     /// `packet`: A buffer of the packet to get the headers from.
     fn get_smbus_headers(&self, packet: &[u8]) -> Result<SMBusHeaders, (MessageType, DecodeError)> {
+        // The SMBus header, the transport header, the message type and the
+        // PEC must all be present
+        if packet.len() < 10 {
+            return Err((MessageType::Invalid, DecodeError::Unknown));
+        }
+
         // packet is a MCTPSMBusPacket
         let mut smbus_header_buf: [u8; 4] = [0; 4];
         smbus_header_buf.copy_from_slice(&packet[0..4]);
@@ -340,6 +346,10 @@ impl<'m> MCTPSMBusContext<'m> {
     pub fn get_length(&self, packet: &[u8]) -> Result<usize, (MessageType, DecodeError)> {
         // The third bye contains the length, let's just get the first three
         // bytes
+        if packet.len() < 3 {
+            return Err((MessageType::Invalid, DecodeError::Unknown));
+        }
+
         let mut smbus_header_buf: [u8; 4] = [0; 4];
         smbus_header_buf[0..3].copy_from_slice(&packet[0..3]);
         let smbus_header = MCTPSMBusHeader::new_from_buf(smbus_header_buf);
@@ -360,11 +370,27 @@ impl<'m> MCTPSMBusContext<'m> {
         packet: &'a [u8],
         calculated_pec: u8,
     ) -> Result<ControlRawPacketData<'a, 'b>, (MessageType, DecodeError)> {
+        // The control message header and the PEC must be present
+        if packet.len() < 3 {
+            return Err((
+                MessageType::MCtpControl,
+                DecodeError::ControlMessage(ControlMessageError::InvalidRequestDataLength),
+            ));
+        }
+
         // Decode the header
         let mut control_message_header_buf: [u8; 2] = [0; 2];
         control_message_header_buf.copy_from_slice(&packet[0..2]);
         let control_message_header =
             MCTPControlMessageHeader::new_from_buf(control_message_header_buf);
+
+        // A response must hold the completion code as well
+        if control_message_header.rq() == 0 && packet.len() < 4 {
+            return Err((
+                MessageType::MCtpControl,
+                DecodeError::ControlMessage(ControlMessageError::InvalidRequestDataLength),
+            ));
+        }
 
         let (payload_offset, compl_comm, body_additional_header_len) =
             match control_message_header.rq() {
